@@ -945,3 +945,61 @@ def r12_region_storage_released_before_overwrite(ck, P, rid='C20-R9'):
                 ck.violation(R, fn, 'store to %s' % lf, '%s overwrites the data pointer of a region at %s although the region has not been finalised on every path to that store and is not known to be freshly initialised (not a local region, and not every caller passes one): if it still owns a rectangle array, the array is leaked and can never be released by the owner of the region' % (fn, x.loc()), x.loc())
     if n == 0:
         raise AnalysisBroken('%s: no store to a region data field outside the region implementation found (the composite-region function stores one)' % rid)
+
+
+def r13_allocation_size_in_wide_type(ck, P, rid='C15-R13'):
+    """T-WID: a size handed to the allocator is a size_t; the overflow guards of the library test the size_t product.  A product of two
+    variable ints that is formed in 32 bits and widened afterwards has wrapped before the allocator sees it, so an image of 4 GiB and
+    more gets a tiny block while the guard - which tested the 64-bit product - passed."""
+    R = ck.rule(rid, 'no size argument of malloc / calloc / realloc (through 64-bit additions and multiplications by constants) is a 32-bit product of two non-constant factors widened afterwards: (size_t)(height * stride) wraps for buffers of 4 GiB and more, the allocation succeeds with the wrapped size and the image is returned with its full geometry on top of it', floor=20)
+    def guarded_by_division(f, z):
+        # the idiom of pixman_malloc_ab: a factor was compared with LIMIT / other factor on the way to the product
+        for t, s_ in f.guard_edges(z.bb.id):
+            if t.op != 'br' or not t.a:
+                continue
+            c, p, ops = f.cond(t.a[0])
+            if c is None or c.op != 'icmp':
+                continue
+            for o in ops:
+                q = f.v(f.strip_casts(o)) if o[0] == 'v' else None
+                if q is not None and q.op in ('udiv', 'sdiv') and q.a[0][0] == 'c' and any(list(f.strip_casts(q.a[1])) == list(f.strip_casts(a)) for a in z.a):
+                    return True
+        return False
+
+    def narrow_product(f, o, d=0):
+        y = f.v(o) if o[0] == 'v' else None
+        if y is None or d > 8:
+            return None
+        if y.op in ('sext', 'zext') and y.ty == 'i64':
+            z = f.v(y.a[0])
+            if z is not None and z.op == 'mul' and z.ty == 'i32' and not any(a[0] == 'c' for a in z.a) and not guarded_by_division(f, z):
+                return z
+            return None
+        if y.op in ('add', 'sub', 'mul', 'shl') and y.ty == 'i64':
+            for a in y.a:
+                r = narrow_product(f, a, d + 1)
+                if r is not None:
+                    return r
+        if y.op == 'phi':
+            for a in y.a:
+                r = narrow_product(f, a, d + 1)
+                if r is not None:
+                    return r
+        return None
+    n = 0
+    for f in P.functions():
+        for c in f.calls():
+            if c.callee not in ('malloc', 'calloc', 'realloc'):
+                continue
+            for a in c.a:
+                y = f.v(a) if a[0] == 'v' else None
+                if a[0] == 'c' or (y is not None and y.ty == 'i64') or (a[0] == 'a' and f.params[a[1]][1] == 'i64'):
+                    n += 1; ck.saw(f)
+                    z = narrow_product(f, a) if a[0] == 'v' else None
+                    where = '%s: size argument of %s at %s' % (f.name, c.callee, c.loc())
+                    if z is None:
+                        ck.ok(R, where)
+                    else:
+                        ck.violation(R, f.name, 'size argument of %s' % c.callee, '%s hands %s a size whose product was formed in 32 bits (%s) and widened afterwards: it wraps for 4 GiB and more, the overflow guard (which tests the 64-bit product) passes, the allocator is asked for the wrapped size and the object is built on a block that is too small' % (f.name, c.callee, z.loc()), z.loc())
+    if n == 0:
+        raise AnalysisBroken('%s: no allocation call found' % rid)
